@@ -48,6 +48,10 @@ func w2Gen(r *rand.Rand, prop, tier string) *simrt.Case {
 					c.Program = append(c.Program, simrt.Op{Actor: m, Kind: "hb"})
 				}
 			}
+			if r.IntN(2) == 0 {
+				// the member leaves for good (a group that empties keeps its committed offsets)
+				c.Program = append(c.Program, simrt.Op{Actor: m, Kind: "leave"})
+			}
 		}
 		// a reader after everything settled (sequential: exact last-commit semantics)
 		for i := 0; i < 6+r.IntN(8); i++ {
